@@ -366,6 +366,22 @@ func (env *Env) ident(name string) Val {
 				return c.V
 			}
 		}
+		// rangeindexN: the hidden index of range loop number N (an enclosing loop, from inside a nested one)
+		if strings.HasPrefix(name, "rangeindex") && len(name) > len("rangeindex") {
+			var n int
+			if _, err := fmt.Sscanf(name[len("rangeindex"):], "%d", &n); err == nil {
+				for _, l := range env.fr.loops {
+					if l.ord == n {
+						if a := loopRangeIndex(l); a != nil {
+							if c := env.st.cells[a]; c != nil {
+								return c.V
+							}
+						}
+					}
+				}
+				env.fail("%s: loop %d is not a range loop that is live here", name, n)
+			}
+		}
 		if a := env.fr.cellByName(e, name, env.pos); a != nil {
 			if c := env.st.cells[a]; c != nil {
 				return c.V
